@@ -813,7 +813,7 @@ pub fn run(a: &Args) {
             results.push((c, r));
         }
         let lits = literals();
-        let per_variant = if a.thorough() { 120 } else { 11 };
+        let per_variant = if a.thorough() { 120 } else { 15 };
         for _ in 0..per_variant {
             for variant in 0..6 {
                 results.push(gen_case(&mut rng, variant, a.thorough(), &lits));
